@@ -1,5 +1,5 @@
 (* C07 - Compilation is a deterministic, lossless function of the data file.
-   Only statements closed by [exact]; proofs are in Proofs/Compile.v (and, for
+   Only statements closed by [exact]; proofs are in Proofs/CompilePipe.v (and, for
    ExecuteBatch, Proofs/Batch.v of C15).  The codec is a parameter:
      conv l       Codec.ConvertLn on line l        accum f   Codec.Acc.MarshalMap after the lines f
      feature      Codec.Features.MarshalMap
@@ -9,7 +9,7 @@
    sort_ok sort: sort returns a sorted permutation (sort.Slice); kvs_ok: values shorter than 2^32.
    Goroutine schedules: any stream that is a permutation of the records (C07_stream_is_permutation
    shows every stream of the parallel parser is one), any sort_ok sort, any order of the batches. *)
-From DnsV Require Import Model.Compile Spec.MapOfLists Proofs.MultiValue Proofs.Batch Proofs.Compile.
+From DnsV Require Import Model.Compile Spec.MapOfLists Proofs.MultiValue Proofs.Batch Proofs.CompilePipe.
 Open Scope N_scope.
 
 (* every stream the worker pool can deliver (lines in any order, each line's records together,
